@@ -86,10 +86,12 @@ def cases(tier, seed, shard, nshards):
                         continue
                     if kind in ("insert", "delete") and second not in ("none", "foreign-where"):
                         continue
-                    for s1 in (SHAPES if second in ("from", "join") else ["plain"]):
+                    for s1 in (SHAPES if second in ("from", "join", "join-using") else ["plain"]):
                         k += 1
                         if k % nshards == shard:
                             yield {"d": d, "kind": kind, "s0": s0, "second": second, "s1": s1, "third": False, "samecol": False, "order": 0}
+                            # the fields hang on equal but distinct objects of their sources (update("t") by name, two Table("t"), a copy)
+                            yield {"d": d, "kind": kind, "s0": s0, "second": second, "s1": s1, "third": False, "samecol": False, "order": 0, "twin": True}
                             if second == "foreign-where":
                                 yield {"d": d, "kind": kind, "s0": s0, "second": second, "s1": s1, "third": False, "samecol": False, "order": 1}
                                 # the outside source named by the WHERE clause is itself any shape (derived table, CTE reference, ...)
@@ -117,7 +119,7 @@ def cases(tier, seed, shard, nshards):
         if kind in ("insert", "delete") and second not in ("none", "foreign-where"):
             second = "none"
         yield {"d": DIALECT_CLASSES[i % 6], "kind": kind, "s0": s0, "second": second, "s1": rnd.choice(SHAPES), "third": rnd.random() < 0.3,
-               "samecol": rnd.random() < 0.3, "order": rnd.randint(0, 1), "rnd": rnd.getrandbits(30), "fs": rnd.choice(SHAPES)}
+               "samecol": rnd.random() < 0.3, "order": rnd.randint(0, 1), "rnd": rnd.getrandbits(30), "fs": rnd.choice(SHAPES), "twin": rnd.random() < 0.3}
 
 
 def build(case):
@@ -148,7 +150,7 @@ def build(case):
     src1 = None
     using_col = None
     if second in ("from", "join", "update-from", "join-using", "join-subquery", "join-aliased-self"):
-        shape1 = case["s1"] if second in ("from", "join") else ("subquery" if second == "join-subquery" else "plain")
+        shape1 = case["s1"] if second in ("from", "join", "join-using") else ("subquery" if second == "join-subquery" else "plain")
         if second == "join-aliased-self":
             src1, q1, aq1, cte1 = T("t0", alias="self2"), "self2", True, None
         else:
@@ -181,10 +183,24 @@ def build(case):
         foreign, fq, faq, _ = make_source(Q, case.get("fs", "plain"), "outer_t")
         multi = True
 
+    twins = {}
+
+    def tbl(i):
+        """The source object a field is attached to: the source itself, or (twin) an equal object built independently."""
+        if not case.get("twin"):
+            return sources[i][0]
+        if i not in twins:
+            shape = case["s0"] if i == 0 else (getattr(sources[i][0], "_pvm_shape", None))
+            twins[i] = sources[i][0]
+            if isinstance(sources[i][0], r["Table"]):
+                import copy as _copy
+                twins[i] = _copy.copy(sources[i][0])
+        return twins[i]
+
     def F(i, clause):
         name = c.col()
         exp.append((name, "S%d" % i, clause))
-        return r["Field"](name, table=sources[i][0])
+        return r["Field"](name, table=tbl(i))
 
     def pick():
         return rnd.randrange(len(sources)) if case.get("rnd") is not None and len(sources) > 1 else 0
@@ -208,7 +224,7 @@ def build(case):
         q = q.groupby(F(0, "groupby"), F(pick(), "groupby")).having(fn("Count")(F(pick(), "having")) > 1).orderby(F(0, "orderby"), F(pick(), "orderby"))
     elif kind == "update":
         tgt, tgt2 = c.col(), c.col()
-        q = q.set(r["Field"](tgt, table=src0), F(pick(), "set-value")).set(tgt2, 5)
+        q = q.set(r["Field"](tgt, table=tbl(0)), F(pick(), "set-value")).set(tgt2, 5)
         # (a Field attached to an *aliased* table is always written with the alias, SET targets included; a name given as a
         #  string has no table and stays bare)
         exp += [(tgt, "ALIASED-ONLY-S0", "set-target"), (tgt2, None, "set-target")]
@@ -227,11 +243,11 @@ def build(case):
             exp.append((a, "FOREIGN", "where"))
     else:
         a, b = c.col(), c.col()
-        q = q.columns(r["Field"](a, table=src0), b).insert(1, 2)
+        q = q.columns(r["Field"](a, table=tbl(0)), b).insert(1, 2)
         # (columns() attaches names given as strings to the insert table, so they behave like its Fields)
         exp += [(a, "ALIASED-ONLY-S0", "insert-columns"), (b, "ALIASED-ONLY-S0", "insert-columns")]
         oc, ou = c.col(), c.col()
-        q = q.on_conflict(r["Field"](oc, table=src0)).do_update(r["Field"](ou, table=src0), 7)
+        q = q.on_conflict(r["Field"](oc, table=tbl(0))).do_update(r["Field"](ou, table=tbl(0)), 7)
         if DIALECT_OF[d] != "mysql":  # ON DUPLICATE KEY UPDATE has no conflict target
             exp.append((oc, "BARE-OR-S0", "on-conflict-target"))
         exp.append((ou, "ALIASED-ONLY-S0", "on-conflict-update"))
